@@ -5,7 +5,7 @@ VERIF = os.path.dirname(os.path.dirname(os.path.abspath(__file__)))
 ALL = [f"C{i:02d}" for i in range(1, 21)]
 
 # commits in /repo whose message starts with `verif-hook:` (cfg-guarded verification hooks)
-HOOK_COMMITS = ["12ac8be", "d787177"]
+HOOK_COMMITS = ["12ac8be", "d787177", "4c25ac6"]
 
 CLAIMS = {
  "C04": dict(
@@ -62,13 +62,31 @@ CLAIMS = {
          "bound on every path of the decision tree). Every side condition is a decidable predicate (inAnfFragment, presHypArity, "
          "sigClosedB, Mono.presHypProg, Match.presHypRows/presHypNames) that gomlmodel c03pres / c03presmatch evaluates on the REAL "
          "Core/Mono/Lift/ANF dumps of every program and on every real match site, together with the conclusion on the model's output "
-         "and the same judgement on the real output (evidence: pass_preservation).",
-    design_ref="§5 C03, §C03 — as built, §C03 pass preservation — as built (round 10), Seeded C03-dot-method-call-arity-unchecked (round 10)",
+         "and the same judgement on the real output (evidence: pass_preservation)."
+         " Round 11 brings the typer's CONSTRAINT GENERATION inside the model (Model/Infer.lean: infer_expr / check_expr / "
+         "infer_call_expr / check_pat / the scope stack of localenv.rs / typecheck_fn, for literals, names, tuples, closures, let, "
+         "blocks, if, while, match on literal/variable/wildcard/tuple patterns, calls of locals / top-level monomorphic and generic "
+         "functions / arbitrary callees, operators, projections, field access; on top of the models of unify and solve). Props/Infer.lean: "
+         "infer_total (generation returns for every expression, expected type, environment and state — Vec indexing is modelled as "
+         "Option, a Rust panic as a stuck state, so an unguarded args[0] makes it unprovable), inferFn_total, infer_store_invariant / "
+         "inferFn_store_invariant (generation only creates keys: the store stays well-formed and acyclic and is refined; composed with "
+         "solve_acyclic), infer_sound_partial (if typecheck_fn ends without any diagnostic, the elaborated body satisfies the declarative "
+         "judgement Model/InferSpec.lean::Wt with types compared in the final store — uses have the type of their binder, references "
+         "are instances of the signature, callee / condition / branch / operand / pattern / projection obligations hold, the body has "
+         "the declared result type — from solve_eq_sound; under the decidable certificate justB, which the driver evaluates on every "
+         "function of the tie stream). Tie: gv infer observes the REAL typecheck_fn through one cfg(goml_verif) observer hook on "
+         "generated function bodies and compares queue before solve, fresh-key counts, diagnostic classes, recorded and final type of "
+         "every node with gomlmodel infer. Oracle without the model: every accepted generated function's REAL final types satisfy Wt; "
+         "every program with one injected error of 18 kinds is rejected by the typer.",
+    design_ref="§5 C03, §C03 — as built, §C03 pass preservation — as built (round 10), Seeded C03-dot-method-call-arity-unchecked (round 10), "
+               "§The typer's unifier — as built (round 10), §The typer's constraint generation — as built (round 11)",
     note="Proved: the theorems above about Wt / the mono model. Validated only: that the real stage dumps satisfy the judgement (oracle on "
          "every accepted program of the run, not a theorem about the typer), that ill-typed programs are rejected (sampled by injection). "
          "Not done: typing preservation for closures through lift (known finding), for mono phase 2 with type applications and for "
-         "the match compiler; soundness of Sem w.r.t. wt; the typer's inference (3 300 lines) is not "
-         "modelled. The preservation theorems are about the pass MODELS under decidable hypotheses that are validated (not proved) to hold "
+         "the match compiler; soundness of Sem w.r.t. wt; of the typer's inference (check.rs, 3 300 lines) only the fragment of "
+         "Model/Infer.lean is modelled (constructors, struct literals, arrays, method / trait-bounded calls, dyn coercions are not), "
+         "infer_sound_partial assumes the per-function certificate justB (validated on every tied function, not proved for all inputs) "
+         "and excludes field accesses; the model is tied by sampling generated bodies. The preservation theorems are about the pass MODELS under decidable hypotheses that are validated (not proved) to hold "
          "on the real programs of each run. Trusted: Lean kernel, our reading of type consistency in Wt.errs, harness dumps of the environments, the generator's "
          "own typing. Fixed: a value coerced to dyn Trait twice inside a call argument. Known findings: after lambda lifting closures are "
          "structs while the positions they flow through keep function types (Lift/ANF not type-consistent); phantom type parameters "
@@ -662,7 +680,10 @@ def main():
                       "the only guarded code is `#[cfg(goml_verif)] impl Typer { verif_fresh, verif_tvar, verif_tvar_index, verif_unify, "
                       "verif_norm, verif_probe, verif_push_constraint, verif_constraints, verif_var_count }` at the end of "
                       "crates/compiler/src/typer/unify.rs (accessors to the private norm/unify, the constraint queue and "
-                      "the union-find table; no behaviour depends on them). Everything else links the crates in /repo by path unguarded.",
+                      "the union-find table; no behaviour depends on them), and (round 11, commit 4c25ac6 of the worker's worktree) in "
+                      "crates/compiler/src/typer/toplevel.rs a thread-local observer `verif_set_fn_observer` that `typecheck_fn` calls through three "
+                      "`#[cfg(goml_verif)]` statements (at entry, before `solve`, after `solve`; it only reads) plus `verif_ty_from_hir`, re-exported "
+                      "from typer/mod.rs. Everything else links the crates in /repo by path unguarded.",
             "baseline_off_cmd": "cd /repo && cargo nextest run --workspace --no-fail-fast --offline --test-threads 8 || cargo test --workspace --no-fail-fast --offline",
             "source_commits": HOOK_COMMITS,
             "add_only": True,
